@@ -237,6 +237,7 @@ type Item struct {
 }
 
 type VC struct {
+	splitVars []string // reach conditions of named calls (case-split candidates)
 	constDone map[string]bool
 	w        *World
 	Name     string
@@ -370,6 +371,9 @@ func (vc *VC) query(k int, extra string) string {
 		sb.WriteByte('\n')
 	}
 	for i := 0; i < k; i++ {
+		if vc.Items[k].Class == "canary" && vc.Items[i].Kind == itOblig {
+			continue // the canary tests the assumptions only (a failed obligation is reported on its own)
+		}
 		sb.WriteString("(assert ")
 		sb.WriteString(vc.Items[i].Term)
 		sb.WriteString(")\n")
